@@ -150,6 +150,9 @@ func init() {
 			in.yieldNow = true
 			return Value{}, true
 		},
+		"OrderOK": func(in *Interp, fr *Frame, a []Value) (Value, bool) {
+			return mkBool(true), true // the engine keeps the order symbolic; natively keys are re-drawn until it matches the model
+		},
 		"Yield": func(in *Interp, fr *Frame, a []Value) (Value, bool) {
 			in.yieldNow = true
 			return Value{}, true
